@@ -127,6 +127,8 @@ pub trait Subject: Send + Sync {
 	fn debug_key(&self) -> String;
 	fn to_json(&self) -> Result<String, String>;
 	fn from_json(&self, s: &str) -> Result<Box<dyn Subject>, String>;
+	/// snapshot + restore through the lossless token format (positional = bincode-like, else named)
+	fn via_tokens(&self, positional: bool) -> Result<Box<dyn Subject>, String>;
 }
 impl Clone for Box<dyn Subject> {
 	fn clone(&self) -> Self {
@@ -194,6 +196,13 @@ where
 	}
 	fn from_json(&self, s: &str) -> Result<Box<dyn Subject>, String> {
 		let m: M = serde_json::from_str(s).map_err(|e| e.to_string())?;
+		Ok(Box::new(W { m, next: self.next.clone(), peek: self.peek.clone() }))
+	}
+	fn via_tokens(&self, positional: bool) -> Result<Box<dyn Subject>, String> {
+		use crate::tokfmt::{restore, snapshot, Flavour};
+		let fl = if positional { Flavour::Positional } else { Flavour::Named };
+		let toks = snapshot(&self.m, fl);
+		let m: M = restore(&toks, fl).map_err(|e| format!("{e} (snapshot of {} tokens)", toks.len()))?;
 		Ok(Box::new(W { m, next: self.next.clone(), peek: self.peek.clone() }))
 	}
 }
